@@ -169,8 +169,9 @@ macro_rules! impl_usize_conversion {
         impl From<$PodType> for usize {
             fn from(pod_val: $PodType) -> Self {
                 let primitive_val = <$PrimitiveType>::from(pod_val);
-                Self::try_from(primitive_val)
-                    .expect("value out of range for usize on this platform")
+                // A value that does not fit in `usize` saturates instead of
+                // panicking: stored lengths come from untrusted account bytes
+                Self::try_from(primitive_val).unwrap_or(Self::MAX)
             }
         }
     };
